@@ -136,6 +136,9 @@ def make_queue_module(sched):
     class Empty(Exception):
         pass
 
+    class Full(Exception):
+        pass
+
     class Queue:
         def __init__(self, maxsize=0):
             sched.yield_("NewQueue")
@@ -150,6 +153,9 @@ def make_queue_module(sched):
                 sched.yield_("Put", lambda: len(self.items) < self.maxsize)
             else:
                 sched.yield_("Put")
+                if self.maxsize > 0 and len(self.items) >= self.maxsize:
+                    sched.note("PutFull")          # non-blocking put / put with a time-out on a full queue: the time-out may fire now
+                    raise Full()
             self.items.append(item)
             self.unfinished_tasks += 1
             sched.note("Put %s" % getattr(item, "_kv_id", "?"))
@@ -186,8 +192,17 @@ def make_queue_module(sched):
         def qsize(self):
             return len(self.items)
 
+        def put_nowait(self, item):
+            return self.put(item, block=False)
+
+        def get_nowait(self):
+            return self.get(block=False)
+
+        def full(self):
+            return self.maxsize > 0 and len(self.items) >= self.maxsize
+
     m = types.ModuleType("queue")
-    m.Queue, m.Empty = Queue, Empty
+    m.Queue, m.Empty, m.Full = Queue, Empty, Full
     sched.queues = []
     return m
 
